@@ -43,21 +43,25 @@ def norm_line(line):
     parts, pos = [], 0
     for m in NUM.finditer(line):
         parts.append(line[pos:m.start()])
-        parts.append(float(m.group(0)))
+        tok = m.group(0)
+        # an int prints without a fraction on both sides, a float with one: keep the kind next to the value
+        parts.append((float(tok), ("." in tok) or ("e" in tok)))
         pos = m.end()
     parts.append(line[pos:])
     return parts
 
 
-def same_line(a, b, tol=0.0051):
+def same_line(a, b, tol=0.0051, strict_kinds=True):
     pa, pb = norm_line(a), norm_line(b)
     if len(pa) != len(pb):
         return False
     for x, y in zip(pa, pb):
-        if isinstance(x, float) != isinstance(y, float):
+        if isinstance(x, tuple) != isinstance(y, tuple):
             return False
-        if isinstance(x, float):
-            if abs(x - y) > tol + 1e-4 * max(abs(x), abs(y)):
+        if isinstance(x, tuple):
+            if strict_kinds and x[1] != y[1]:
+                return False          # an integer value held in a float (6 printed as 6.00) or the reverse
+            if abs(x[0] - y[0]) > tol + 1e-4 * max(abs(x[0]), abs(y[0])):
                 return False
         elif x != y:
             return False
@@ -68,17 +72,17 @@ def observable(events, kinds=("S", "D")):
     return [e for e in events if e.startswith("== ") or e.split(":", 1)[0] in kinds]
 
 
-def compare(host, fw):
+def compare(host, fw, strict_kinds=True):
     """first difference between two event lists, or None"""
     for i in range(max(len(host), len(fw))):
         h = host[i] if i < len(host) else "<end>"
         f = fw[i] if i < len(fw) else "<end>"
-        if not same_line(h, f):
+        if not same_line(h, f, strict_kinds=strict_kinds):
             return {"index": i, "cpython": h, "firmware": f}
     return None
 
 
-def differential(src, passes=3, kinds=("S", "D")):
+def differential(src, passes=3, kinds=("S", "D"), strict_kinds=True):
     """-> dict(verdict = 'same' | 'rejected' | 'python-undefined' | 'differs' | 'does-not-compile' | 'crash', ...)"""
     host = host_events(src, passes)
     if host["status"].startswith(("crash", "timeout")):
@@ -94,7 +98,7 @@ def differential(src, passes=3, kinds=("S", "D")):
     if fw.get("timeout") or fw.get("rc", 0) != 0:
         return {"verdict": "crash", "detail": fw.get("stderr", "timeout"), "cpp": cpp}
     h, f = _strip_empty_passes(observable(host["events"], kinds)), _strip_empty_passes(observable(fw["events"], kinds))
-    d = compare(h, f)
+    d = compare(h, f, strict_kinds)
     if d is None:
         return {"verdict": "same", "events": len(h)}
     return {"verdict": "differs", "first_difference": d, "cpython": h[:40], "firmware": f[:40], "cpp": cpp}
